@@ -450,15 +450,15 @@ theorem StructOk.addFile {ext : Option FsH} {n n' : Node} (h : StructOk ext n n'
   · exact ⟨rfl, rfl, fun hall => hall⟩
 
 theorem StructOk.deleteFile {ext : Option FsH} {n n' : Node} (h : StructOk ext n n') (F f : String) :
-    StructOk ext n (n'.mapLiveFolder F (fun G => G.mapLiveFile f File.delete)) := by
+    StructOk ext n (n'.mapLiveFolder F (fun G => G.delLive f)) := by
   apply h.mapFolders
   intro G
   split
   · refine ⟨rfl, rfl, fun hall f' hf' => ?_⟩
-    simp only [Folder.mapLiveFile, List.mem_map] at hf'
+    simp only [Folder.delLive, Folder.mapLiveFile, List.mem_map] at hf'
     obtain ⟨f0, hf0, rfl⟩ := hf'
     split
-    · exact (hall f0 hf0).congr rfl rfl rfl
+    · exact (hall f0 hf0).congr (by simp) (by simp) (by simp)
     · exact hall f0 hf0
   · exact ⟨rfl, rfl, fun hall => hall⟩
 
@@ -646,14 +646,15 @@ what the replaced file showed (no scan, no new information for the observer). -/
 theorem C14_dyn_db_replace (d : DNode) (F f sF : String) (src old : File) (G : Folder)
     (hsrc : d.n.liveFile? sF f = some src) (hG : d.n.liveFolder? F = some G) (hold : firstAny f G.files = some old) :
     (d.apply (.dbReplace F f sF)).n =
-      (d.n.mapLiveFolder F (fun G => G.mapLiveFile f File.delete)).addFile F
+      (d.n.mapLiveFolder F (fun G => G.delLive f)).addFile F
         { name := f, actual := src.actual, visible := old.visible, deleted := false } := by
   simp only [DNode.apply, DNode.dbReplace, hsrc, hG, hold]
 
-/-- …and when only a DELETED folder of that name holds the database file, `copy_file` creates a NEW folder of that name for the
+/-- …and when only DELETED folders of that name exist (the first in deletion order is consulted), `copy_file` creates a NEW folder of that name for the
 copy, which again shows what the (deleted) file showed. -/
 theorem C14_dyn_db_replace_deleted_folder (d : DNode) (F f sF : String) (src old : File) (G : Folder)
-    (hsrc : d.n.liveFile? sF f = some src) (hno : d.n.liveFolder? F = none) (hG : d.n.findFolder F = some G)
+    (hsrc : d.n.liveFile? sF f = some src) (hno : d.n.liveFolder? F = none)
+    (hG : d.n.folders.find? (fun G => G.name = F && firstDeletedFolder d.n.folders G) = some G)
     (hold : firstAny f G.files = some old) :
     (d.apply (.dbReplace F f sF)).n =
       (d.createFolder F).n.addFile F { name := f, actual := src.actual, visible := old.visible, deleted := false } := by
@@ -735,8 +736,8 @@ theorem createFile_other (d : DNode) (D g F f : String) (x : File) (hne : D ≠ 
   · exact h
   · exact createFolder_other d D F f x hne h
 
-theorem findLive_deleted_all (f : String) (fs : List File) :
-    findLive f (fs.map (fun x => if x.name = f ∧ x.deleted = false then x.delete else x)) = none := by
+theorem findLive_deleted_all (f : String) (s : Nat) (fs : List File) :
+    findLive f (fs.map (fun x => if x.name = f ∧ x.deleted = false then x.deleteAt s else x)) = none := by
   unfold findLive
   rw [List.find?_eq_none]
   intro y hy
@@ -775,23 +776,23 @@ theorem C14_view_db_replace (d : DNode) (F f sF : String) (old : File) (h : d.n.
       let new : File := { name := f, actual := src.actual, visible := old.visible, deleted := false }
       let g2 : Folder → Folder := fun H =>
         (fun K : Folder => if K.name = F ∧ K.deleted = false then { K with files := K.files ++ [new] } else K)
-          (if H.name = F ∧ H.deleted = false then H.mapLiveFile f File.delete else H)
-      have hn2 : ((d.n.mapLiveFolder F (fun G => G.mapLiveFile f File.delete)).addFile F new).folders = d.n.folders.map g2 := by
+          (if H.name = F ∧ H.deleted = false then H.delLive f else H)
+      have hn2 : ((d.n.mapLiveFolder F (fun G => G.delLive f)).addFile F new).folders = d.n.folders.map g2 := by
         simp only [Node.addFile, Node.mapLiveFolder, mapFolders_folders, List.map_map]; rfl
       have hg2 : ∀ H, (decide ((g2 H).name = F) && !(g2 H).deleted) = (decide (H.name = F) && !H.deleted) := by
         intro H
         simp only [g2]
         by_cases hH : H.name = F ∧ H.deleted = false
-        · simp [hH, Folder.mapLiveFile]
+        · simp [hH, Folder.mapLiveFile, Folder.delLive]
         · simp only [hH, if_false]
       unfold Node.liveFile? Node.liveFolder? Node.findLiveFolder
       rw [hn2, find?_map_pres _ g2 _ hg2]
       have hG' : d.n.folders.find? (fun G => decide (G.name = F) && !G.deleted) = some G := hG
       rw [hG']
-      simp only [Option.map_some, g2, hGp.1, hGp.2, and_self, if_true, Folder.mapLiveFile]
+      simp only [Option.map_some, g2, hGp.1, hGp.2, and_self, if_true, Folder.mapLiveFile, Folder.delLive]
       unfold findLive
       rw [List.find?_append]
-      have := findLive_deleted_all f G.files
+      have := findLive_deleted_all f (G.delCtr + 1) G.files
       unfold findLive at this
       rw [this]
       simp [new]
